@@ -10,11 +10,18 @@
    sides in exact rational arithmetic and emits their equality as observation kind 52,
    [bc_def_tab] being the definition by C05_def_executed_form.  What is proved for all
    graphs: the facts about the definition named in the property text, the rescaling
-   rules, the source exclusion of the accumulation step, one entry per node, and that
-   the rayon path computes the same vector as the serial path. *)
+   rules, the source exclusion of the accumulation step, one entry per node, that the
+   rayon path computes the same vector as the serial path, and (hop-count mode, by loop
+   invariant) the whole single-source stage: D = hop distances, S = the reachable nodes
+   in non-decreasing distance, P[w] = the shortest-path predecessors, sigma = the path
+   count recurrence, fuel never exhausted; and that the accumulation adds the solution of
+   Brandes' dependency recurrence over that P and sigma (C05_bfs_source_contribution_partial).
+   MISSING for the full hop-count statement: Brandes' lemma itself, i.e. that the solution of
+   the recurrence equals  sum over t of  #{p in SP s t | v in p} / #SP s t  for the path
+   enumeration of [bc_def]; and the weighted (heap) stage. *)
 From Coq Require Import String List Bool ZArith Arith QArith.
 From GV Require Import Base.Outcome Base.AMap Model.GState Model.Query Model.Cent Model.Brandes.
-From GV Require Import Spec.BetweennessDef Proofs.BrandesOk.
+From GV Require Import Spec.BetweennessDef Spec.ClosenessDef Proofs.BrandesOk Proofs.BrandesAccOk Proofs.ClosenessBfsOk Proofs.BrandesBfsOk.
 Import ListNotations.
 
 (* ---- the definition ---- *)
@@ -74,3 +81,66 @@ Proof. exact parallel_eq_serial. Qed.
 Theorem C05_one_entry_per_node : forall (T A : Type) lw (g : gstate T A) weighted normalized m,
   betweenness_centrality lw g weighted normalized = Ok m -> length m = number_of_nodes g.
 Proof. intros T A. exact (@betweenness_entries T A). Qed.
+
+(* ---- hop-count mode: the single-source stage `bfs`, for every graph and source ---- *)
+
+Theorem C05_stage_bfs_distances : forall (g : qadj) (src : nat) (s : qs),
+  adj_ok (length g) g = true -> (src < length g)%nat -> (forall v, NoDup (map fst (get [] g v))) ->
+  bbfs g src = Some s ->
+  forall w, dist_spec (unit_z g) src w (oget (dvec s) w).
+Proof. intros g src s H1 H2 H3 H4. exact (stage_D g src H1 H2 H3 s H4). Qed.
+
+Theorem C05_stage_bfs_stack : forall (g : qadj) (src : nat) (s : qs),
+  adj_ok (length g) g = true -> (src < length g)%nat -> (forall v, NoDup (map fst (get [] g v))) ->
+  bbfs g src = Some s ->
+  NoDup (qS s) /\ (forall w, In w (qS s) <-> Dn s w <> None) /\
+  sorted_by (dval s) (qS s) /\ (forall w, In w (qS s) -> (w < length g)%nat).
+Proof. intros g src s H1 H2 H3 H4. exact (stage_S g src H1 H2 H3 s H4). Qed.
+
+Theorem C05_stage_bfs_predecessors : forall (g : qadj) (src : nat) (s : qs),
+  adj_ok (length g) g = true -> (src < length g)%nat -> (forall v, NoDup (map fst (get [] g v))) ->
+  bbfs g src = Some s ->
+  forall w, NoDup (get [] (qP s) w) /\
+    forall u, In u (get [] (qP s) w) <-> E g u w /\ exists k, Dn s u = Some k /\ Dn s w = Some (S k).
+Proof. intros g src s H1 H2 H3 H4. exact (stage_P g src H1 H2 H3 s H4). Qed.
+
+Theorem C05_stage_bfs_sigma : forall (g : qadj) (src : nat) (s : qs),
+  adj_ok (length g) g = true -> (src < length g)%nat -> (forall v, NoDup (map fst (get [] g v))) ->
+  bbfs g src = Some s ->
+  get 0 (qsig s) src = 1 /\
+  forall w, w <> src -> get 0 (qsig s) w == Qsum (map (get 0 (qsig s)) (get [] (qP s) w)).
+Proof. intros g src s H1 H2 H3 H4. exact (stage_sigma g src H1 H2 H3 s H4). Qed.
+
+Theorem C05_stage_bfs_total : forall (g : qadj) (src : nat),
+  adj_ok (length g) g = true -> (src < length g)%nat -> (forall v, NoDup (map fst (get [] g v))) ->
+  exists s, bbfs g src = Some s.
+Proof. exact bbfs_total. Qed.
+
+(* ---- accumulation: for any stack without repetitions whose predecessors come first, the loop
+   adds to every stack node other than the source the solution of Brandes' recurrence ---- *)
+Theorem C05_accumulate_recurrence : forall src S P sig bet,
+  NoDup S -> preds_first P S ->
+  (forall w, In w S -> NoDup (get [] P w) /\ (forall u, In u (get [] P w) -> (u < length bet)%nat) /\
+                       (w < length bet)%nat) ->
+  exists D : list Q,
+    length D = length bet /\
+    (forall v, get 0 D v == Qsum (map (contrib P sig D v) S)) /\
+    (forall w, get 0 (accumulate src S P sig bet) w ==
+               get 0 bet w + (if nmem w S && negb (Nat.eqb w src) then get 0 D w else 0)).
+Proof. exact accumulate_recurrence. Qed.
+
+Theorem C05_bfs_source_contribution_partial : forall (g : qadj) (src : nat) (s : qs),
+  adj_ok (length g) g = true -> (src < length g)%nat -> (forall v, NoDup (map fst (get [] g v))) ->
+  bbfs g src = Some s ->
+  forall bet, length bet = length g ->
+  exists D : list Q,
+    length D = length bet /\
+    (forall v, get 0 D v == Qsum (map (contrib (qP s) (qsig s) D v) (qS s))) /\
+    (forall w, get 0 (accumulate src (qS s) (qP s) (qsig s) bet) w ==
+               get 0 bet w + (if nmem w (qS s) && negb (Nat.eqb w src) then get 0 D w else 0)).
+Proof. intros g src s H1 H2 H3 H4. exact (stage_accumulate g src H1 H2 H3 s H4). Qed.
+
+(* the per-case check of observation kind 53 establishes the row-shape hypothesis above *)
+Theorem C05_rows_check_sound : forall g : qadj,
+  rows_nodup g = true -> forall v, NoDup (map fst (get [] g v)).
+Proof. exact rows_nodup_sound. Qed.
